@@ -30,6 +30,8 @@ func runC05(c *core.Ctx) {
 	ruleStreamsClosed(c)
 	ruleRefLimits(c, "C05-R4")
 	rulePeekDiscardPre(c)
+	ruleDepthDiscipline(c)
+	ruleBudgetCharged(c)
 }
 
 // call graph -----------------------------------------------------------------
@@ -906,4 +908,405 @@ func rulePeekDiscardPre(c *core.Ctx) {
 		}
 		o.Require(n >= 3, "only %d Discard calls found", n)
 	})
+}
+
+// ruleDepthDiscipline (C05-R7): a depth bound stops a recursion only if the
+// depth really grows around every cycle.  For every function that compares
+// an integer parameter with a bound and exits (the depth-guard idiom), the
+// parameter is followed through the calls that pass it on (unchanged or
+// plus a positive constant); among the functions it reaches, no call cycle
+// may consist only of calls that pass the depth on unchanged or replace it.
+func ruleDepthDiscipline(c *core.Ctx) {
+	const rule = "C05-R7"
+	type node struct {
+		fn  *core.Func
+		par int
+	}
+	type edge struct {
+		to     *core.Func
+		weight int // 0 unchanged, 1 increased, -1 replaced by something unrelated
+		call   *ast.CallExpr
+	}
+	paramIndex := func(fn *core.Func, obj types.Object) int {
+		i := 0
+		for _, fl := range fn.Decl.Type.Params.List {
+			for _, nm := range fl.Names {
+				if fn.Info().Defs[nm] == obj {
+					return i
+				}
+				i++
+			}
+			if len(fl.Names) == 0 {
+				i++
+			}
+		}
+		return -1
+	}
+	paramAt := func(fn *core.Func, idx int) types.Object {
+		i := 0
+		for _, fl := range fn.Decl.Type.Params.List {
+			for _, nm := range fl.Names {
+				if i == idx {
+					return fn.Info().Defs[nm]
+				}
+				i++
+			}
+			if len(fl.Names) == 0 {
+				i++
+			}
+		}
+		return nil
+	}
+	// classify an argument relative to the depth variable d
+	classify := func(info *types.Info, a ast.Expr, d types.Object) int {
+		a = ast.Unparen(a)
+		if core.ObjOf(info, a) == d {
+			return 0
+		}
+		if be, ok := a.(*ast.BinaryExpr); ok && be.Op == token.ADD {
+			if core.ObjOf(info, be.X) == d {
+				if k, ok := core.IntConst(info, be.Y); ok && k > 0 {
+					return 1
+				}
+			}
+			if core.ObjOf(info, be.Y) == d {
+				if k, ok := core.IntConst(info, be.X); ok && k > 0 {
+					return 1
+				}
+			}
+		}
+		return -1
+	}
+	// guard roots
+	var roots []node
+	for _, pkg := range c.Prog.RepoPkgs() {
+		for _, fn := range c.Prog.Funcs(pkg) {
+			info := fn.Info()
+			ast.Inspect(fn.Decl.Body, func(n ast.Node) bool {
+				is, ok := n.(*ast.IfStmt)
+				if !ok || !exits(is.Body) {
+					return true
+				}
+				found := false
+				ast.Inspect(is.Cond, func(m ast.Node) bool {
+					be, ok := m.(*ast.BinaryExpr)
+					if !ok {
+						return true
+					}
+					var v ast.Expr
+					switch be.Op {
+					case token.GEQ, token.GTR:
+						v = be.X
+					case token.LEQ, token.LSS:
+						v = be.Y
+					default:
+						return true
+					}
+					obj := core.ObjOf(info, v)
+					if obj == nil {
+						return true
+					}
+					if b, ok := obj.Type().Underlying().(*types.Basic); !ok || b.Info()&types.IsInteger == 0 {
+						return true
+					}
+					if idx := paramIndex(fn, obj); idx >= 0 && !found {
+						// the other side is a constant or a call (a limit), not another parameter
+						other := be.Y
+						if v == be.Y {
+							other = be.X
+						}
+						if oo := core.ObjOf(info, other); oo != nil && paramIndex(fn, oo) >= 0 {
+							return true
+						}
+						found = true
+						roots = append(roots, node{fn, idx})
+					}
+					return true
+				})
+				return true
+			})
+		}
+	}
+	c.Floor(rule, 6)
+	seenRoot := map[string]bool{}
+	for _, root := range roots {
+		root := root
+		key := root.fn.Key + "/" + paramAt(root.fn, root.par).Name()
+		if seenRoot[key] {
+			continue
+		}
+		seenRoot[key] = true
+		// follow the parameter through the calls that pass it on
+		threaded := map[*core.Func]int{root.fn: root.par}
+		undecided := ""
+		work := []*core.Func{root.fn}
+		for len(work) > 0 {
+			fn := work[len(work)-1]
+			work = work[:len(work)-1]
+			d := paramAt(fn, threaded[fn])
+			for _, cs := range core.CallsIn(fn.Info(), fn.Decl, true) {
+				if cs.Fn == nil {
+					continue
+				}
+				k := c.Prog.FuncOf(cs.Fn)
+				if k == nil {
+					continue
+				}
+				for i, a := range cs.Call.Args {
+					if classify(fn.Info(), a, d) >= 0 {
+						if old, ok := threaded[k]; ok {
+							if old != i {
+								undecided = k.Key + " receives the depth in two different parameters"
+							}
+							continue
+						}
+						if paramAt(k, i) == nil {
+							continue // variadic or unnamed
+						}
+						threaded[k] = i
+						work = append(work, k)
+					}
+				}
+			}
+		}
+		edges := map[*core.Func][]edge{}
+		nEdges := 0
+		for fn, pi := range threaded {
+			d := paramAt(fn, pi)
+			for _, cs := range core.CallsIn(fn.Info(), fn.Decl, true) {
+				if cs.Fn == nil {
+					continue
+				}
+				k := c.Prog.FuncOf(cs.Fn)
+				if k == nil {
+					continue
+				}
+				ki, ok := threaded[k]
+				if !ok || ki >= len(cs.Call.Args) {
+					continue
+				}
+				nEdges++
+				edges[fn] = append(edges[fn], edge{k, classify(fn.Info(), cs.Call.Args[ki], d), cs.Call})
+			}
+		}
+		// only recursive uses matter: the guarded function can reach itself
+		reach := map[*core.Func]bool{}
+		var walk func(fn *core.Func)
+		walk = func(fn *core.Func) {
+			for _, e := range edges[fn] {
+				if !reach[e.to] {
+					reach[e.to] = true
+					walk(e.to)
+				}
+			}
+		}
+		walk(root.fn)
+		if !reach[root.fn] {
+			continue
+		}
+		c.Check(rule, key, "the depth counter grows around every call cycle it is threaded through", func(o *core.Ob) {
+			o.At(root.fn.Site(root.fn.Decl, "depth guard on parameter "+paramAt(root.fn, root.par).Name()))
+			if undecided != "" {
+				core.Undecided("%s", undecided)
+			}
+			o.Count(nEdges)
+			o.Fact("%d functions carry the depth, %d calls between them", len(threaded), nEdges)
+			// cycle without an increasing edge?
+			var fns []*core.Func
+			for fn := range threaded {
+				fns = append(fns, fn)
+			}
+			sort.Slice(fns, func(i, j int) bool { return fns[i].Key < fns[j].Key })
+			state := map[*core.Func]int{}
+			var path []edge
+			var report func(start *core.Func)
+			found := false
+			var dfs func(fn *core.Func) bool
+			dfs = func(fn *core.Func) bool {
+				state[fn] = 1
+				for _, e := range edges[fn] {
+					if e.weight > 0 {
+						continue
+					}
+					path = append(path, e)
+					if state[e.to] == 1 {
+						report(e.to)
+						return true
+					}
+					if state[e.to] == 0 && dfs(e.to) {
+						return true
+					}
+					path = path[:len(path)-1]
+				}
+				state[fn] = 2
+				return false
+			}
+			report = func(start *core.Func) {
+				found = true
+				var parts []string
+				// the cycle is the suffix of path that starts at a call made by `start`
+				begin := 0
+				for i := len(path) - 1; i >= 0; i-- {
+					begin = i
+					if i == 0 || path[i-1].to == start {
+						break
+					}
+				}
+				for _, e := range path[begin:] {
+					how := "unchanged"
+					if e.weight < 0 {
+						how = "replaced by " + c.Prog.Src(e.call.Args[threaded[e.to]])
+					}
+					parts = append(parts, c.Prog.Pos(e.call.Pos())+" calls "+e.to.Key+" with the depth "+how)
+					o.Sites = append(o.Sites, core.Site{Pos: c.Prog.Pos(e.call.Pos()), Func: e.to.Key, Note: "depth " + how})
+				}
+				o.Fail("call cycle along which the depth never grows: %s", strings.Join(parts, "; "))
+			}
+			for _, fn := range fns {
+				if state[fn] == 0 && !found {
+					path = nil
+					dfs(fn)
+				}
+			}
+		})
+	}
+}
+
+// ruleBudgetCharged (C05-R8): a work budget bounds a loop only if every
+// iteration that passes the "budget exhausted?" test pays for itself.  For
+// every loop that tests a local counter against zero and exits, and that
+// decrements the counter somewhere in the same body, no path may lead from
+// the test back to the test without passing a decrement (a "continue"
+// before the charge makes skipped items free, and a file can consist of
+// skipped items only).
+func ruleBudgetCharged(c *core.Ctx) {
+	const rule = "C05-R8"
+	n := 0
+	ord := map[string]int{}
+	for _, pkg := range c.Prog.RepoPkgs() {
+		for _, fn := range c.Prog.Funcs(pkg) {
+			fn := fn
+			var graphs []*core.Graph
+			graphs = append(graphs, fn.Graph())
+			ast.Inspect(fn.Decl.Body, func(m ast.Node) bool {
+				if fl, ok := m.(*ast.FuncLit); ok {
+					graphs = append(graphs, fn.LitGraph(fl))
+				}
+				return true
+			})
+			info := fn.Info()
+			budgetOf := func(e ast.Expr) types.Object {
+				e = ast.Unparen(e)
+				if st, ok := e.(*ast.StarExpr); ok {
+					e = st.X
+				}
+				id, ok := e.(*ast.Ident)
+				if !ok {
+					return nil
+				}
+				obj, _ := info.ObjectOf(id).(*types.Var)
+				if obj == nil || obj.IsField() || obj.Parent() == obj.Pkg().Scope() {
+					return nil
+				}
+				t := obj.Type()
+				if p, ok := t.Underlying().(*types.Pointer); ok {
+					t = p.Elem()
+				}
+				if b, ok := t.Underlying().(*types.Basic); !ok || b.Info()&types.IsInteger == 0 {
+					return nil
+				}
+				return obj
+			}
+			for gi, g := range graphs {
+				g := g
+				for _, bv := range g.BranchVertices() {
+					bv := bv
+					if bv.Cond.Expr == nil || bv.Cond.Tag != nil {
+						continue
+					}
+					be, ok := ast.Unparen(bv.Cond.Expr).(*ast.BinaryExpr)
+					if !ok {
+						continue
+					}
+					k, isK := core.IntConst(info, be.Y)
+					if !isK || !((be.Op == token.LEQ && k == 0) || (be.Op == token.LSS && k == 1)) {
+						continue
+					}
+					b := budgetOf(be.X)
+					if b == nil || !g.InLoop(bv) {
+						continue
+					}
+					// The innermost loop around the test: a range over a slice, array, map or
+					// string is bounded by data already in memory (the counter then limits the
+					// output, not the work); generators, integer ranges and plain for loops are not.
+					var loop ast.Node
+					ast.Inspect(fn.Decl.Body, func(m ast.Node) bool {
+						switch m.(type) {
+						case *ast.ForStmt, *ast.RangeStmt:
+							if m.Pos() <= be.Pos() && be.End() <= m.End() {
+								loop = m
+							}
+						}
+						return true
+					})
+					if rs, ok := loop.(*ast.RangeStmt); ok {
+						switch info.TypeOf(rs.X).Underlying().(type) {
+						case *types.Slice, *types.Array, *types.Map, *types.Pointer:
+							continue
+						case *types.Basic:
+							if info.TypeOf(rs.X).Underlying().(*types.Basic).Info()&types.IsString != 0 {
+								continue
+							}
+						}
+					}
+					// the true edge leaves the loop (return or break): bv not reachable again
+					if g.ReachFrom(bv, false, core.AvoidEdges(core.EdgeRef{From: bv, Label: core.EdgeFalse}))[bv] {
+						continue
+					}
+					// decrements of the same counter in this graph
+					var decs []*core.V
+					for _, v := range g.Vs {
+						switch s := v.AST.(type) {
+						case *ast.IncDecStmt:
+							if s.Tok == token.DEC && budgetOf(s.X) == b {
+								decs = append(decs, v)
+							}
+						case *ast.AssignStmt:
+							if s.Tok == token.SUB_ASSIGN && len(s.Lhs) == 1 && budgetOf(s.Lhs[0]) == b {
+								decs = append(decs, v)
+							}
+						}
+					}
+					if len(decs) == 0 {
+						continue
+					}
+					n++
+					ord[fn.Key]++
+					_ = gi
+					key := fn.Key + "/" + b.Name() + "#" + itoa(ord[fn.Key])
+					c.Check(rule, key, "every iteration that passes the budget test is charged before the next test", func(o *core.Ob) {
+						o.At(fn.Site(bv.Cond.Expr, "budget test"))
+						for _, d := range decs {
+							o.At(fn.Site(d.AST, "charge"))
+						}
+						o.Count(1 + len(decs))
+						free := g.ReachFrom(bv, false, core.AvoidEdges(core.EdgeRef{From: bv, Label: core.EdgeTrue}).With(decs...))
+						if free[bv] {
+							// name a vertex on the free path that jumps back
+							where := ""
+							for _, v := range g.Vs {
+								if bs, ok := v.AST.(*ast.BranchStmt); ok && free[v] && bs.Tok == token.CONTINUE {
+									where = " (e.g. through the continue at " + c.Prog.Pos(bs.Pos()) + ")"
+									break
+								}
+							}
+							o.Fail("%s: the loop can return to the budget test without charging %s%s", c.Prog.Pos(bv.Cond.Expr.Pos()), b.Name(), where)
+						}
+					})
+				}
+			}
+		}
+	}
+	c.Floor(rule, 2)
+	_ = n
 }
